@@ -246,7 +246,8 @@ def check(label, got, tr, mode, sc, ctx):
     def mk(clause, detail):
         return Violation(f"C10/{label}/{clause}/{mode}", detail, info)
 
-    if not np.all(got["count"] == tr["n"]):
+    # compared in float64 / exact integers: a count held in a narrower float would otherwise pull n down to its own precision
+    if not np.all(np.asarray(got["count"]).astype(np.float64) == float(tr["n"])) or np.asarray(got["count"]).dtype.kind not in "iuf":
         raise mk("count", f"{got['count'].tolist()} != {tr['n']}")
     if not np.array_equal(got["min"].astype(np.float64), tr["min"]):
         raise mk("min", f"{got['min'].tolist()} != {tr['min'].tolist()}")
